@@ -108,6 +108,24 @@ def run(ctx):
         if h % 2 == 0:      # the same input twice in a row
             calls.append(dict(calls[-1]))
         hist_jobs.append(calls)
+    # histories that change the parameter file between runs: a value derived from one run's parameters (a cached cut-off, a
+    # table built from them) must not reach the next run
+    import re
+    import propka as _pk
+    cfg = open(os.path.join(os.path.dirname(os.path.abspath(_pk.__file__)), "propka.cfg")).read()
+    alt = cfg
+    for key_, val in (("desolv_cutoff", "16.0"), ("buried_cutoff", "13.0"), ("coulomb_cutoff1", "5.0"), ("coulomb_cutoff2", "8.0"),
+                      ("Nmin", "250"), ("Nmax", "380")):
+        alt = re.sub(r"^(%s\s+)\S+" % key_, r"\g<1>" + val, alt, flags=re.M)
+    pdir = tempfile.mkdtemp(prefix="c03cfg")
+    ctx.param_text = alt
+    altp = os.path.join(pdir, "alt.cfg")
+    open(altp, "w").write(alt)
+    big = sorted(inputs, key=lambda nt: -len(nt[1]))[:2]
+    for n, (name, text) in enumerate(big):
+        dflt = dict(pdb=text, args=[], mode="stream", name=name)
+        cust = dict(pdb=text, args=["-p", altp], mode="stream", name=name)
+        hist_jobs.append([dflt, cust, dflt] if n == 0 else [cust, dflt, cust])
     with ThreadPoolExecutor(max_workers=14) as ex:
         res = list(ex.map(lambda j: worker(j[1], j[2]), jobs))
         hres = list(ex.map(lambda calls: worker(dict(garbage=0, cwd=None, calls=calls), 0), hist_jobs))
@@ -160,8 +178,11 @@ def run(ctx):
                 break
     for hist, k in hbad[:2]:
         ctx.violate("history:" + k[0], "call %d of history %r gives results different from the same call alone" % (len(hist), hist),
-                    dict(history=hist))
-    ctx.oblige("spec: every call of %d in-process histories = the same call alone in a fresh interpreter" % len(hist_jobs), not hbad, str(hbad[:1]))
+                    dict(history=hist, inputs={n: t for n, t in inputs if n in {h[0] for h in hist}},
+                         parameter_file_of_p_option=alt if any("-p" in a for _, a in hist) else None))
+    import shutil
+    shutil.rmtree(pdir, ignore_errors=True)
+    ctx.oblige("spec: every call of %d in-process histories (two of them alternate the shipped and an edited parameter file) = the same call alone in a fresh interpreter" % len(hist_jobs), not hbad, str(hbad[:1]))
     # several inputs in ONE invocation of the command-line entry point (propka.run.main shares one options object between them):
     # the .pka file written for an input is the file written when that input is processed alone with the same options - also with
     # a --titrate_only list that names residues the earlier inputs lack
@@ -237,19 +258,29 @@ ALLOWED_WRITES = ("group.PROTONATOR", "coupled_groups.NCCG", "lib._LOGGER")
 
 
 def write_set(ctx, inputs):
+    """observed in fresh interpreters (two histories: the inputs in order and reversed) and in this process"""
     bad = []
-    for name, text in inputs[:6]:
+
+    def judge(name, keys):
+        for k in keys:
+            leaf = k.split(".")[1]
+            if leaf not in ("PROTONATOR", "NCCG") and "_LOGGER" not in k:
+                bad.append((name, k))
+    picked = inputs[:6]
+    for tag, seq in (("fresh", picked), ("fresh-reversed", picked[::-1][:3])):
+        res = worker(dict(writeset=True, calls=[dict(pdb=t, args=[]) for _, t in seq]), 0)
+        for (name, _), keys in zip(seq, res):
+            judge(tag + ":" + name, keys)
+            ctx.case(key=("writeset", tag, name))
+    for name, text in picked[:2]:
         before = snapshot()
         observe.run(text, [], want_text=False)
         after = snapshot()
-        for k in after:
-            leaf = k.split(".")[1]
-            if before.get(k) != after[k] and leaf not in ("PROTONATOR", "NCCG") and "_LOGGER" not in k:
-                bad.append((name, k))
+        judge(name, [k for k in after if before.get(k) != after[k]])
         ctx.case(key=("writeset", name))
     if bad:
         ctx.violate("write-set:" + bad[0][1], "a run writes module-level state outside the modelled write set: %r" % bad[:3], dict(writes=bad[:10]), failing_input=False)
-    ctx.oblige("write-set: a run writes no module/class-level state except PROTONATOR's table and NCCG.parameters", not bad, str(bad[:3]))
+    ctx.oblige("write-set: a run (also the first of a fresh interpreter) writes no module/class-level state except PROTONATOR's table and NCCG.parameters", not bad, str(bad[:3]))
 
 
 def hidden_corr(ctx):
@@ -292,5 +323,18 @@ def replay(ctx, rep):
             shas.add(out[0]["sha"])
         print("distinct results over 6 fresh interpreters:", len(shas))
         return 0 if len(shas) == 1 else 1
+    if "history" in r and r.get("inputs"):
+        d = tempfile.mkdtemp(prefix="c03rep")
+        try:
+            pf = os.path.join(d, "alt.cfg")
+            open(pf, "w").write(r.get("parameter_file_of_p_option") or "")
+            calls = [dict(pdb=r["inputs"][n], args=[pf if i and a[i - 1] == "-p" else x for i, x in enumerate(a)], mode="stream") for n, a in r["history"]]
+            inhist = worker(dict(garbage=0, cwd=None, calls=calls), 0)[-1]["sha"]
+            alone = worker(dict(garbage=0, cwd=None, calls=calls[-1:]), 0)[0]["sha"]
+        finally:
+            import shutil
+            shutil.rmtree(d, ignore_errors=True)
+        print("last call of the history = the same call alone:", inhist == alone)
+        return 0 if inhist == alone else 1
     print(rep)
     return 0
